@@ -5,6 +5,36 @@ import json, os, sys
 
 CHECKS = {
  # id: (engine, category, technique, level text, level note, design_ref)
+ "C01": ("E3 sweep", "model_checking",
+         "exhaustive enumeration of login tuples (alphabet products, contiguous key ranges, counter-mode RNG scripts, constructed rare-class witnesses) on the real typestate API under a scripted RNG",
+         "Every login in the stated finite spaces is executed through the real public API with salt, b and a chosen by the explorer; oracle: both sides accept, byte-identical K, accessors return what was stored, the exchange after export/re-import is identical to the direct one. Rare classes (S with 1/2/3 low zero bytes, high zero bytes in S/A/B/v, negative B-k*v) are constructed witnesses re-validated by the reference model on every run.",
+         "Complete over the stated alphabets/ranges/witnesses, not over 2^256 keys and salts; RNG seam trusted to be the library's only entropy source (checked by draw log).",
+         "DESIGN.md section 3, C01"),
+ "C02": ("E2 choices", "model_checking",
+         "deviation-bounded exploration of an adversary on the wire (typed credentials, every single-bit change of B, salt, A, M1, M2) over the real four-message exchange, exact-equality reference oracle per party",
+         "For each session every execution with <= 1 deviation (1,094 per session) and, for a few sessions, every pair of deviations is run on the real code; each party must accept iff the presented proof equals the reference proof determined by its own view, errors must carry both proofs.",
+         "Session alphabet finite; deviation bound 1 (2 for a few sessions).",
+         "DESIGN.md section 3, C02"),
+ "C03": ("E3 sweep", "model_checking",
+         "exhaustive enumeration against an independent reference model: login tuples, all 32x32 zero-byte shapes of S through the internal-function seam, all generators 2..255 x prime moduli alphabet on the client",
+         "v, B, A, K, M1, M2 from the public accessors are compared byte for byte with a reference model that shares no code with the library (own SHA-1/bigint), itself validated against Python and the repository's vectors; the S-shape dimension (every count of low/high zero bytes) is closed completely at the seam; announced groups are closed over all 254 generators x 17 prime moduli.",
+         "Key/salt space and modulus alphabet finite; reference model trusted after its self-test.",
+         "DESIGN.md section 3, C03"),
+ "C04": ("E3 sweep", "model_checking",
+         "exhaustive enumeration of the 2^32 {0,N_i}-byte arrays and all one-byte/one-bit neighbours of 0 and N; steering of the server's own B and the client's own A",
+         "All 2^32 arrays whose bytes are each 0 or N's byte (thorough; a structured subset in quick), every one-byte/one-bit neighbour of 0 and N, arithmetic neighbours and powers of two are pushed through PublicKey::from_le_bytes; the server's own B is steered to chosen values through a constructed verifier and scripted b, the client's own A to 0 through g = N'.",
+         "The remaining 2^256 space is represented by alphabets.",
+         "DESIGN.md section 3, C04"),
+ "C05": ("E2 choices", "model_checking",
+         "deviation-bounded exploration of reconnect-attempt histories (replays, stale challenges, wrong key/name, all proof and client-data bit flips, repeated nonces) on one real SrpServer, reference state (U, K, current challenge)",
+         "All histories of length 6 (quick) / 8 and 12 (thorough) with at most 2 (resp. 1, 3) deviating attempts or refreshes over an alphabet of ~330 adversary actions are executed on the real object; verdict must equal proof == SHA1(U|client_data|current challenge|K) and every attempt must replace the challenge.",
+         "History length and deviation count bounded; sessions from an alphabet.",
+         "DESIGN.md section 3, C05"),
+ "C06": ("E3 sweep", "model_checking",
+         "exhaustive enumeration of all ordered pairs of boundary seeds x usernames x session keys x every single deviation, for the three expansion modules, server seed scripted through the RNG seam",
+         "Per module every (username, key, client seed, server seed) session of the product is run with the honest proof and with each deviation (swapped seeds, seeds +-1, other/case-variant name, each key byte, each of 160 proof bits); the server must accept iff the proof equals the reference for the seed its accessor reports. Thorough adds all 2^32 claimed client seeds.",
+         "Usernames and session keys from alphabets.",
+         "DESIGN.md section 3, C06"),
  "C07": ("E1 statespace", "model_checking",
          "explicit-state BFS to fixpoint over the real EncrypterHalf/DecrypterHalf objects, lockstep reference recurrence",
          "Per key and direction the complete reachable state graph (10,240 states x 257 actions) of the real Vanilla halves is closed to fixpoint and every transition is compared with the reference recurrence; the closed-loop (encrypter, decrypter) graph is closed too, so round-tripping holds for streams of unbounded length for the explored keys; chunking equivalence is checked from every reachable state. Rotating keys put every byte value at every key position, so the step function is executed on its whole domain (thorough).",
@@ -15,6 +45,61 @@ CHECKS = {
          "Same three searches as C07 with the 20-byte HMAC-derived key (5,120 states per key and direction); ciphertext equality with a reference that derives the key with its own HMAC-SHA1 pins both separately coded derivations; the session-key alphabet is grown until the derived keys cover every (position, byte) pair (thorough).",
          "Session keys outside the alphabet are not explored (the HMAC is covered by byte-exact comparison on the explored keys only).",
          "DESIGN.md section 3, C08"),
+ "C09": ("E1 statespace (path)", "model_checking",
+         "depth-bounded walk of the keystream path of all four real halves against a reference RC4-drop1024/HMAC; complete call-composition trees at the counter wrap offsets",
+         "For each key the four real halves are stepped along the stream (past the 256- and 65,536-byte wraps) with varying call sizes and compared byte for byte with an independent RC4 keyed by HMAC-SHA1(direction constant, K) after dropping 1024 bytes; both pairings round-trip at every offset; every composition of a 10-byte window into calls is executed at the wrap offsets with object equality.",
+         "Depth-bounded (2^17+300 bytes quick, 2^20 thorough): RC4's state space cannot be closed; key alphabet finite.",
+         "DESIGN.md section 3, C09"),
+ "C10": ("E3 sweep + E1", "model_checking",
+         "exhaustive enumeration of all 2^23 sizes and all 2^16 opcodes (each against an alphabet of the other) through both emitters and both decoders; BFS over mixed header sequences with exact dedup",
+         "Every size 0..=0x7FFFFF and every opcode is emitted by the real server (slice and Write emitters), checked against the reference layout under the reference keystream, and decoded by both client paths on a running connection; header sequences are explored to a depth bound with dedup on the real object pair.",
+         "The full size x opcode product is not enumerated; sequence depth bounded.",
+         "DESIGN.md section 3, C10"),
+ "C11": ("E2 choices", "fault_enumeration",
+         "complete enumeration of the reader/writer answer tree (every fragmentation, interruption, EOF and 8 error kinds at every byte offset) for every header entry point; exhaustive typed-vs-raw value sweeps",
+         "For every entry point (typed helper, Read/Write wrapper, combined object, split half, via accessor) of Vanilla, TBC and Wrath, the whole finite tree of environment answers is executed on the real wrapper from several cipher states: success leaves must equal the raw operation on the wire layout, failure leaves must return Err and leave the decrypter exactly as before (after the 4-byte attempt for a Wrath header failing at byte 5), a failing writer must be reported.",
+         "Start states and header values from alphabets; at most 2 interruptions per execution.",
+         "DESIGN.md section 3, C11"),
+ "C12": ("E1 statespace + E4 loom + E3", "model_checking",
+         "BFS over interleavings of {encrypt, decrypt, split, clone, unsplit} with a differential oracle (separate single-direction objects) and the reference model; loom exploration of all schedules of two real halves in two threads; exhaustive one-byte key differences for unsplit",
+         "Every interleaving up to the depth bound is executed on the real combined object / halves and each direction's bytes are compared with a separate object and the reference model; loom runs all schedules (no preemption bound) of 2 threads x 3 operations over the real halves for five harnesses and all 20 operation orders are observed; Vanilla unsplit is decided for all 40x255 one-byte and all two-position key differences.",
+         "Interleaving depth bounded; the schedules argument rests on ownership (no statics/interior mutability - scanned and reported) plus call-level interleavings.",
+         "DESIGN.md section 3, C12"),
+ "C13": ("E3 sweep", "model_checking",
+         "exhaustive enumeration: every Unicode scalar value at every position of every byte length 1..=17, all short strings over a 12-symbol alphabet, all multi-byte strings at the length limit",
+         "118 million constructions cover every scalar value x position x length; all five constructors, Display, idempotence, case-insensitivity and ==/cmp/Hash against the normalised text are compared with the reference rule.",
+         "Multi-character combinations beyond the small alphabets are not enumerated.",
+         "DESIGN.md section 3, C13"),
+ "C14": ("E3 sweep + E1", "model_checking",
+         "enumeration of adversarial and algebraically targeted peer values (incl. B = k*v mod N forcing S = 0) through the typestate API with catch_unwind; BFS over header byte sequences",
+         "Every combination of the adversarial alphabets for A, M1, reconnect values (server) and B, salt, M2 (client) with a and b pinned by the RNG script is executed; no call may unwind and results must match the reference where it is defined; header decrypt calls in any order (incl. the Wrath large-header byte before any attempt, short readers) are explored by BFS.",
+         "Byte values outside the adversarial alphabets are not explored.",
+         "DESIGN.md section 3, C14"),
+ "C15": ("E2/E3 over the RNG environment", "model_checking",
+         "enumeration of RNG answers (counter, all-zero, all-ones, one-hot at every draw-byte position) and call histories for each of the 15 drawing sites through the scripted-RNG seam",
+         "For every documented drawing call: later calls draw again, values never repeat when the RNG supplied different bytes, every draw byte changes the value, every output byte varies, the draw is at least as wide as the value; card digits stay in 0..=9 and every cell varies. A free-running two-thread sampling pass is supplementary and labelled as such.",
+         "Statistical quality of rand::ThreadRng is trusted (outside this family).",
+         "DESIGN.md section 3, C15"),
+ "C16": ("E3 sweep", "model_checking",
+         "exhaustive enumeration of all 3,628,800 grid-seed residues, all 2^32 seeds (thorough), PIN ranges and every single-bit change of presented hashes",
+         "All residues modulo 10! are closed with a 10-distinct-digit PIN (the hash reveals the whole layout); seeds are reduced modulo 10! for all 2^32 seeds (thorough); the 4..10 digit gate is closed over 0..20000 and all boundaries (thorough: every PIN below 10^8); verification is checked against the reference for the right hash, all 160 one-bit changes, the un-gated hash and neighbours.",
+         "Salts from an alphabet; 9/10-digit PINs only at the range edges.",
+         "DESIGN.md section 3, C16"),
+ "C17": ("E3 sweep", "model_checking",
+         "exhaustive enumeration of every distribution of byte strings of length <= 12 (20 thorough) over the five file arguments, block-edge cut points, single-byte sensitivity",
+         "Every one of the C(n+4,4) splits per length is evaluated through the Windows, Mac and single-buffer functions and the reference SHA1(key|HMAC-SHA1(salt, concat)); every single-byte change of files, salt and key must change the result; argument order matters; reconnect variant compared with the reference.",
+         "Content space represented by three patterns per length.",
+         "DESIGN.md section 3, C17"),
+ "C18": ("E3 sweep", "model_checking",
+         "exhaustive enumeration of all 1,457 card shapes of at most 255 cells x 5 digit counts: every coordinate, every round 0..=255, proofs from the printed digits",
+         "For every shape and card content that encodes the cell index, the lookup must return the printed cell at row y, column x; rounds outside 0..count-1 must yield None without panic, challenged coordinates must be distinct and on the card; a client entering the printed digits must be accepted and its proof must equal the reference HMAC/MD5/RC4 definition; altered digit sequences must be rejected.",
+         "Seeds and session keys from alphabets (all small seeds for cards of <= 12 cells).",
+         "DESIGN.md section 3, C18"),
+ "C19": ("E5 dualbuild", "model_checking",
+         "the same exhaustive case lists compiled against both big-integer back ends (num-bigint, rug/GMP); canonical transcripts compared line by line",
+         "Every case of the C01 login layers (incl. zero private keys), C03 seam operands/S shapes, announced groups (incl. the even prime 2 and tiny moduli), C04 own-key steering and C14 hostile server keys is executed once per build; every observable (bytes, error kind, panic) must be identical.",
+         "rug runs on the system GMP 6.2.1 through a vendored version-gate patch (bundled 6.3.0 cannot be built offline).",
+         "DESIGN.md section 3, C19"),
 }
 PENDING = {}
 
